@@ -23,7 +23,7 @@ for d in sorted(glob.glob(os.path.join(H, "seeded", "*")), key=key):
     v = m.get("verified", {})
     caught = []
     for c in v.get("caught_by", []):
-        out = (v["checks_run_against_patched_tree"][c].get("out") or "")
+        out = (v["checks_run_against_patched_tree"].get(c, {}).get("out") or "")
         if isinstance(out, list):
             out = "\n".join(out)
         sig = ""
